@@ -187,10 +187,16 @@ func main() {
 	r.MinShapes(40)
 	nCases := r.N(3000, 100000)
 	// cases nCases.. are the concurrent-notifier cases (concurrent.go); the sequential cases keep their indices
+	// then the recorder-racing-notifiers cases
 	nConc := r.N(1200, 20000)
-	r.Parallel(nCases+nConc, func(c *vk.Case) {
+	nRerec := r.N(1200, 20000)
+	r.Parallel(nCases+nConc+nRerec, func(c *vk.Case) {
+		if c.Idx >= nCases+nConc {
+			runConcCase(r, c, true)
+			return
+		}
 		if c.Idx >= nCases {
-			runConcCase(r, c)
+			runConcCase(r, c, false)
 			return
 		}
 		runCase(r, c)
